@@ -56,6 +56,7 @@ type op struct {
 
 type tcase struct {
 	NU    int      `json:"nu"`
+	NCL   int      `json:"ncl"` // concentrated-liquidity pools to create at set-up (targets of NoLock gauges)
 	Funds []string `json:"funds"`
 	Min   string `json:"min"`
 	Pools []pool `json:"pools"`
@@ -168,6 +169,10 @@ func run(t *testing.T, c tcase) obs {
 		id := h.PrepareBalancerPoolWithCoinsAndWeights(coins, w)
 		poolIds = append(poolIds, id)
 		app.ProtoRevKeeper.SetPoolForDenomPair(h.Ctx, "uosmo", rewardDenoms[p.R], id)
+	}
+	clIds := []uint64{}
+	for i := 0; i < c.NCL; i++ {
+		clIds = append(clIds, h.PrepareConcentratedPool().GetId())
 	}
 	minCoin := sdk.NewCoin("uosmo", mustInt(c.Min))
 	app.IncentivesKeeper.SetParam(h.Ctx, incentivestypes.KeyMinValueForDistr, minCoin)
@@ -286,6 +291,22 @@ func run(t *testing.T, c tcase) obs {
 				id, e = app.IncentivesKeeper.CreateGauge(ctx, x.Perp == 1, users[x.U], mkCoins(x.Coins),
 					lockuptypes.QueryCondition{LockQueryType: lockuptypes.ByDuration, Denom: lockDenoms[x.LD], Duration: time.Duration(x.Dur) * time.Millisecond},
 					base.Add(time.Duration(x.Start)*time.Millisecond), x.N, 0)
+				return e
+			})
+			if err == nil {
+				ngauges++
+				if id != gid0+ngauges {
+					panic("unexpected gauge id")
+				}
+			}
+		case "ngauge":
+			// an external NoLock gauge on concentrated-liquidity pool x.Pool (uptime 1 ns, the authorized default)
+			var id uint64
+			err = apph.Atomic(ctxNow(), func(ctx sdk.Context) error {
+				var e error
+				id, e = app.IncentivesKeeper.CreateGauge(ctx, x.Perp == 1, users[x.U], mkCoins(x.Coins),
+					lockuptypes.QueryCondition{LockQueryType: lockuptypes.NoLock, Denom: "", Duration: time.Nanosecond},
+					base.Add(time.Duration(x.Start)*time.Millisecond), x.N, clIds[x.Pool])
 				return e
 			})
 			if err == nil {
